@@ -67,6 +67,10 @@ CHECKS = {
             "Runtime monitor on every buffer a node hands to its transport in encrypted clusters driven through a script that reaches every send site: each packet and each stream write is opened by the oracle-side AES-GCM with the sender's CURRENT primary key and the label (packet) or type|length|label (stream) as associated data, anything else - cleartext, another installed key, missing associated data, a non-encrypt frame - is a violation; a canary scan over names, metadata, user payloads, user state and ack payloads backs it up. The check is inconclusive unless the opened plaintexts cover the message-type x path matrix (18 cells incl. error replies, nacks, TCP fallback ping/ack, both push/pull roles).",
             "'Every code path' is a structural quantifier: this family shows it only for the send sites the coverage matrix proves were reached. Trusts stdlib AES-GCM and the oracle-side framing.",
             "transport-tap decryption oracle + canary scan with required send-site coverage", "DESIGN.md §3 C15"),
+    "C13": ("E3-hostile-input (child process per batch, journal before injection)", "fault_enumeration",
+            "Fault enumeration over genuine traffic: every truncation, per-position byte edits, every single bit (items <= 256 B), type-byte sweeps, label-header variants, structurally hostile plaintexts and decompression bombs on the packet path; every cut point (FIN or stall), bit flips, over-cap declarations, bombs, 140 concurrent stalled push/pulls and a handler-stuck flood on the stream path - per configuration (label x encryption x verify-incoming x compression). Monitors: process survival (journal names the fatal input), digest equality for inputs the oracle-side codec finds undecodable, listener liveness probes, leak checks after TCPTimeout (connections, pending-probe records, push/pull counter, goroutines), bytes consumed after an over-cap header, handoff queue depth. ~230 k inputs in the quick tier; thorough enumerates all positions.",
+            "The enumeration is complete for single-bit/single-byte edits and truncations of the chosen genuine items in thorough, sampled by stride in quick; it says nothing about multi-byte edits beyond the listed generators. Trusts the oracle-side codec's notion of 'well-formed'.",
+            "mutation enumeration with crash/effect/liveness/leak/cap monitors", "DESIGN.md §3 C13"),
 }
 
 NOT_YET = "check not built yet in this round (design in DESIGN.md §3); not claimed until its monitor runs clean on the unchanged tree"
@@ -102,6 +106,7 @@ def main():
             "add_only": True,
         },
         "engines": [
+            {"name": "E3-hostile-input", "path": "harness/hostile.go", "serves_properties": ["C13", "C14"], "kind_free_text": "victim node + genuine corpus from the oracle-side codec + deterministic mutators; each input journalled before injection, batches in child processes"},
             {"name": "E1-simnet", "path": "harness/simnet.go", "serves_properties": ["C02", "C03", "C04", "C05", "C07", "C08", "C12", "C15", "C17"], "kind_free_text": "real Memberlist instances on an in-memory transport inside a testing/synctest bubble (virtual time), with wire tap, fault scripts and fake peers"},
             {"name": "E2-model-lockstep", "path": "harness/", "serves_properties": ["C01", "C02", "C06", "C08", "C10", "C11", "C16", "C17", "C18"], "kind_free_text": "PRNG operation sequences against one object with an executable reference model evaluated in lock-step"},
         ],
